@@ -424,9 +424,9 @@ type Machine struct {
 	proto *interpreter
 
 	ExtraInit []*ssa.Package // packages whose initialisers also run (the model package: nothing imports it)
-	baseOnce sync.Once
-	base     map[*ssa.Global]*value // initialised globals of non-acra packages, shared read-only by all paths
-	BaseErr  string
+	baseOnce  sync.Once
+	base      map[*ssa.Global]*value // initialised globals of non-acra packages, shared read-only by all paths
+	BaseErr   string
 }
 
 // buildBase runs the package initialisers once and keeps the globals of every non-acra package
